@@ -69,7 +69,8 @@ fn opd(m: &RegMap, v: &Value) -> String {
         Value::Function(i) => format!("f{i}"),
         Value::ExtFunction(name, _) => format!("x{}", sanitize(name.as_str())),
         Value::None => "-".into(),
-        _ => "?".into(),
+        Value::UpValue(i) => format!("u{i}"),
+        other => { if std::env::var("MIR_DEBUG").is_ok() { eprintln!("opd other: {other:?}"); } "?".into() }
     }
 }
 
@@ -256,7 +257,7 @@ pub fn dump(mir: &Mir) -> String {
         let args: Vec<String> = f.args.iter().map(|a| ws(&a.1).to_string()).collect();
         let empty = RegMap::new();
         let pm = f.upperfn_i.and_then(|u| maps.get(u)).map(|p| &p.0).unwrap_or(&empty);
-        // (an entry that is the creator's own upvalue — `Value::UpValue(i)`, /repo 89c075d — is dumped as `?`: unsupported by the model)
+        // (an entry that is the creator's own upvalue — `Value::UpValue(i)`, /repo 89c075d — is dumped as `u<i>`)
         let ups: Vec<String> = f.upindexes.iter().map(|u| opd(pm, &u.0)).collect();
         let upper = f.upperfn_i.map(|u| u.to_string()).unwrap_or("-".into());
         let nret = f.return_type.get().map(|t| ws(t).to_string()).unwrap_or("-".into());
